@@ -23,10 +23,13 @@ LOOK_TYPES = ["given", "when", "step"]          # = LookTypes of StepRegistry_MC
 NFUNCS = 8
 REC_MODULE = "_verif_c11_rec"
 PARSE_SPEC = {"any": "}", "int": ":d}", "word": ":w}", "float": ":f}", "custom": ":Colour}",
-              "many": ":Colour+}", "optional": ":SpColour?}"}
+              "many": ":Colour+}", "optional": ":SpColour?}", "many0": ":SpColour*}", "falsy": ":Falsy}"}
+FUSED = ("optional", "many0")          # cfparse cardinality fields that may take nothing; they own the blank before them
+FALSY = {"none": None, "zero": 0, "blank": "", "no": False, "nil": []}      # = FalsyVal of StepRegistry.tla
 COLOURS = "red|green|blue"
 RE_BODY = {"any": ".+?", "int": r"[-+]?\d+", "word": r"\w+", "float": r"[-+]?\d*\.\d+", "custom": COLOURS,
-           "many": "(?:%s)(?:,(?:%s))*" % (COLOURS, COLOURS), "optional": COLOURS}
+           "many": "(?:%s)(?:,(?:%s))*" % (COLOURS, COLOURS), "optional": COLOURS, "many0": COLOURS,
+           "falsy": "none|zero|blank|no|nil"}
 
 
 def j(chars):
@@ -42,10 +45,10 @@ def render(pat, kind):
         if e["k"] == "lit":
             out.append(sp + j(e["w"]))
         elif kind in ("parse", "cfparse"):
-            out.append(("" if e["k"] == "optional" else sp) + "{" + name + PARSE_SPEC[e["k"]])
+            out.append(("" if e["k"] in FUSED else sp) + "{" + name + PARSE_SPEC[e["k"]])
         else:
             group = ("(?P<%s>%s)" % (name, RE_BODY[e["k"]])) if name else "(%s)" % RE_BODY[e["k"]]
-            out.append("(?: %s)?" % group if e["k"] == "optional" else sp + group)
+            out.append("(?: %s)?" % group if e["k"] in FUSED else sp + group)
     text = "".join(out)
     return "^" + text + "$" if kind == "re0" else text
 
@@ -56,7 +59,7 @@ def enc_val(v):
     if v is None:
         r["ty"] = "none"
     elif isinstance(v, bool):
-        r["s"] = list(repr(v))
+        r["ty"], r["i"] = "bool", int(v)
     elif isinstance(v, str):
         r["ty"], r["s"] = "str", list(v)
     elif isinstance(v, int) and abs(v) < 2 ** 30:
@@ -99,7 +102,11 @@ class Env(object):
         @parse.with_pattern(r" red| green| blue")
         def parse_spcolour(text):
             return text.strip().upper()
-        self.types = {"Colour": parse_colour, "SpColour": parse_spcolour}
+        @parse.with_pattern(r"none|zero|blank|no|nil")
+        def parse_falsy(text):
+            v = FALSY[text]
+            return list(v) if isinstance(v, list) else v            # a converter whose result is not truthy
+        self.types = {"Colour": parse_colour, "SpColour": parse_spcolour, "Falsy": parse_falsy}
 
         class RunnerStub(object):
             config = Configuration(command_args=[], load_config=False)
@@ -308,7 +315,7 @@ def judge(chk, cases, env, chunks):
 
 
 def show_val(v):
-    return {"str": j(v["s"]), "int": v["i"], "float": v["i"] / 1000.0, "list": [j(x) for x in v["l"]],
+    return {"str": j(v["s"]), "int": v["i"], "float": v["i"] / 1000.0, "list": [j(x) for x in v["l"]], "bool": bool(v["i"]),
             "none": None}.get(v["ty"], "<%s>" % j(v["s"]))
 
 
